@@ -74,6 +74,22 @@ def _dd_bundles(tier, seed, find, props, comps, widths_small, extra_fams=True, d
                 if more:
                     b.update(more)
                 out.append(P(**b))
+    # probe-directed structures: a concrete pre-scan (random cost vectors, microseconds per run) looks for structures on
+    # which SOME concrete probe already violates an obligation of this property; the symbolic engine then decides them
+    # (nothing is found on a tree where the property holds; the scan only chooses WHERE the solver looks)
+    nscan = 500 if tier == "quick" else 3000
+    scan_fams = [dict(n=4, b=3, d=2, setnext=1), dict(n=5, b=2, d=2, setnext=1), dict(n=4, b=3, d=2, setnext=1, long_arcs=1, depth_free=1), dict(n=4, b=2, d=2, setnext=1, bonus=1, perm=1)]
+    for fam in scan_fams:
+        for dd in dds:
+            for comp in comps:
+                for w in (1, 2):
+                    hits = find([], fam, 2, base + 1, dyn=dict(notes="VIOLATION", dd=dd, comp=comp, width=w, roots=0, props=props, tries=5), count=nscan)
+                    for s in hits:
+                        i += 1
+                        b = dict(kind="dd", dd=dd, comp=comp, seed=s, width=str(w), roots="0", rub="none", lb="none", hist=0, rev=0, props=props, nsym=8, **fam, **lim)
+                        if more:
+                            b.update(more)
+                        out.append(P(**b))
     if extra_fams:
         fams = [
             dict(n=4, b=2, d=2, setnext=1),
@@ -142,6 +158,16 @@ def _solve_bundles(tier, seed, find, props, modes, fams=None, dds=DD3, caches=("
                 i += 1
                 for ca in caches:
                     out.append(P(kind="solve", dd=dd, cache=ca, fringe=fringes[i % len(fringes)], width="2", mode=modes[0], seed=s, rub="none", rev=i % 2, sym_init=0, warm=0, kmax=kmax, props=props, **deep, **lim))
+    if "plain" in modes:
+        nscan = 300 if tier == "quick" else 2000
+        scan_fams = [dict(n=4, b=3, d=2, setnext=1), dict(n=5, b=2, d=2, setnext=1, depth_free=1), dict(n=4, b=3, d=2, setnext=1, long_arcs=1, depth_free=1)]
+        for fam in scan_fams:
+            for dd in dds:
+                for ca in caches:
+                    for fr in fringes:
+                        for s in find([], fam, 1, base + 1, dyn=dict(_solve=True, notes="VIOLATION", dd=dd, cache=ca, fringe=fr, width=1, tries=4), count=nscan):
+                            i += 1
+                            out.append(P(kind="solve", dd=dd, cache=ca, fringe=fr, width="1", mode="plain", seed=s, rub="none", rev=0, sym_init=0, warm=0, kmax=kmax, props=props, nsym=6, **fam, **lim))
     for fi, fam in enumerate(fams):
         seeds = [base + 100 * fi + k + 1 for k in range(nq)]
         for feat in directed:
@@ -329,6 +355,13 @@ def plan(prop, tier, seed, find):
                 for ca in ("0", "1"):
                     i += 1
                     b.append(P(kind="solve", dd=dd, cache=ca, fringe=("nodup" if i % 3 == 0 else "simple"), width="1,2,3", mode="plain", seed=s, rub="none", rev=i % 2, perm=(i // 2) % 2, props="C15,C02", **f, **lim))
+        # probe-directed: structures on which a concrete probe run of the pooled solver already misbehaves (budget, wrong value)
+        for famx in (fam, fam4, dict(n=5, b=2, d=2, setnext=1, long_arcs=1, depth_free=1, nsym=7)):
+            for ca in ("0", "1"):
+                for w in (1, 2):
+                    for fr in ("simple", "nodup"):
+                        for s in find([], {k: v for k, v in famx.items() if k != "nsym"}, 2, base + 1, dyn=dict(_solve=True, notes="VIOLATION", dd="pooled", cache=ca, fringe=fr, width=w, tries=4), count=(600 if tier == "quick" else 4000)):
+                            b.append(P(kind="solve", dd="pooled", cache=ca, fringe=fr, width=str(w), mode="plain", seed=s, rub="none", rev=0, props="C15,C02", **famx, **lim))
         return dict(engine="symx", bundles=b, prefixes=["C15:", "C02:solution", "nontermination"], vacuity=dict(explored_ge2=1), functions=FUNCS_SOLVE + ["ddo::Pooled::_move_to_next_layer (is_impacted_by / long arcs)"],
                     bounds=bound_solve + "; depth-free table models with irrelevance masks (a state not impacted by a variable keeps its state at cost 0 under a neutral default decision), static and permuted variable orders, widths 1..3; Pooled compared with the optimum and (same obligations) with Mdd<LEL> in which every state is expanded on every variable; termination through a budget of 20000 model callbacks",
                     nontrivial=("decided sub-case in which the solver processed >= 2 sub-problems on some path", lambda r: r["notes"].get("explored_ge2", 0) > 0))
